@@ -172,6 +172,7 @@ namespace MulRef
 open Gen.ExtraFieldsFq.Ref Gen.ExtraFieldsFqp.Ref Gen.ExtraFieldsMul.Ref FqpRef
 variable {p : Nat} {mc : List Int}
 
+set_option linter.unusedSimpArgs false in
 /-- the `while len(b) > self.degree` loop generated from reference `FQP.__mul__` is the model's `refReduce` -/
 theorem mul_loop_eq (a : Fqp .ref p mc) : ∀ (f : Nat) (b : List Int),
     FQP.mul_fqp_loop0 p mc (obj a) f b = Fqp.refReduce p mc mc.length f b := by
@@ -183,7 +184,10 @@ theorem mul_loop_eq (a : Fqp .ref p mc) : ∀ (f : Nat) (b : List Int),
     unfold FQP.mul_fqp_loop0 Fqp.refReduce
     simp only [obj, FQ.sub_fq, FQ.mul_fq, FQ.init_int, Int.emod_emod]
     by_cases hgt : b.length > mc.length
-    · simp only [hgt, if_true]
+    · -- `exp` may be computed before the `b.pop()` (`len(b) - degree - 1`) or after it (`len(b) - degree`)
+      have hlen : b.dropLast.length - mc.length = b.length - mc.length - 1 := by
+        rw [List.length_dropLast]; omega
+      simp only [hgt, if_true, hlen]
       exact ih _
     · simp only [hgt, if_false]
 
@@ -211,9 +215,10 @@ theorem wf_mul (a b : Fqp .ref p mc) : (Fqp.mul a b).coeffs.length = mc.length :
   simp only [Fqp.mul, Fqp.ofInts, List.length_map]
   apply fields_length_refReduce <;> rw [fields_length_convLoop] <;> omega
 
-/-- the `while other > 0` loop generated from reference `FQP.__pow__` computes the model's `Fqp.powAux` (same fuel) -/
+/-- the `while other > 0` loop generated from reference `FQP.__pow__` computes the model's `Fqp.powAux` (same fuel); the
+    loop state lists the variables in the order in which the method first binds them (`other`, `o`, `t`) -/
 theorem pow_loop_eq : ∀ (f : Nat) (o t : Fqp .ref p mc) (e : Nat),
-    Except.map Prod.fst (FQP.pow_loop0 p mc f (obj o, (e : Int), obj t)) = .ok (obj (Fqp.powAux f o t e)) := by
+    Except.map (fun s => s.2.1) (FQP.pow_loop0 p mc f ((e : Int), obj o, obj t)) = .ok (obj (Fqp.powAux f o t e)) := by
   intro f
   induction f with
   | zero => intro o t e; rfl
@@ -249,7 +254,7 @@ theorem pow_eq (a : Fqp .ref p mc) (e : Int) (hd : 1 ≤ mc.length) :
   · obtain ⟨k, rfl⟩ := Int.eq_ofNat_of_zero_le h
     have := pow_loop_eq k (Fqp.one : Fqp .ref p mc) a k
     simp only [Int.toNat_natCast]
-    exact bind_of_map _ Prod.fst _ _ (fun ⟨_, _, _⟩ => rfl) this
+    exact bind_of_map _ (fun (s : Int × FQP × FQP) => s.2.1) _ _ (fun ⟨_, _, _⟩ => rfl) this
   · have : e.toNat = 0 := by omega
     rw [this]; rfl
 
@@ -290,10 +295,11 @@ theorem wf_mul (a b : Fqp .opt p mc) : (Fqp.mul a b).coeffs.length = mc.length :
   simp only [Fqp.mul, Fqp.ofInts, List.length_map]
   exact fields_length_optReduce mc mc.length _ (fields_length_convLoop _ _ _ _)
 
-/-- the `while other > 0` loop generated from optimized `FQP.__pow__` computes the model's `Fqp.powAux` (same fuel) -/
+/-- the `while other > 0` loop generated from optimized `FQP.__pow__` computes the model's `Fqp.powAux` (same fuel); the
+    loop state lists the variables in the order in which the method first binds them (`other`, `o`, `t`) -/
 theorem pow_loop_eq : ∀ (f : Nat) (o t : Fqp .opt p mc) (e : Nat),
     o.coeffs.length = mc.length → t.coeffs.length = mc.length →
-    Except.map Prod.fst (FQP.pow_loop0 p mc f (obj o, (e : Int), obj t)) = .ok (obj (Fqp.powAux f o t e)) := by
+    Except.map (fun s => s.2.1) (FQP.pow_loop0 p mc f ((e : Int), obj o, obj t)) = .ok (obj (Fqp.powAux f o t e)) := by
   intro f
   induction f with
   | zero => intro o t e _ _; rfl
@@ -331,7 +337,7 @@ theorem pow_eq (a : Fqp .opt p mc) (e : Int) (hd : 1 ≤ mc.length) (ha : a.coef
   · obtain ⟨k, rfl⟩ := Int.eq_ofNat_of_zero_le h
     have := pow_loop_eq k (Fqp.one : Fqp .opt p mc) a k wf1 ha
     simp only [Int.toNat_natCast]
-    exact bind_of_map _ Prod.fst _ _ (fun ⟨_, _, _⟩ => rfl) this
+    exact bind_of_map _ (fun (s : Int × FQP × FQP) => s.2.1) _ _ (fun ⟨_, _, _⟩ => rfl) this
   · have : e.toNat = 0 := by omega
     rw [this]; rfl
 
